@@ -15,6 +15,9 @@ def _roles(ctx, comp, ex, rule):
     r = need_body(ex, "read", rule, comp.site)
     p = need_body(ex, "peek", rule, comp.site)
     c = need_body(ex, "clear", rule, comp.site)
+    from . import excl
+
+    excl.exclusive(ctx, "C17", comp.cls.name if hasattr(comp, "cls") and hasattr(comp.cls, "name") else "buffer", w, r)
     # valid flag: register written with constant 1 in write's body
     valid = None
     data = None
